@@ -33,6 +33,7 @@ type histOpts struct {
 	TimeStep  int64
 	TimeBase  int64
 	MsgPrefix string
+	Parents   [][]int // explicit shape (overrides the random one)
 }
 
 func cloneRows(rows [][]string) [][]string {
@@ -89,9 +90,14 @@ func buildHistory(db objects.Store, rng *rand.Rand, o histOpts) (*history, error
 	for i := range base {
 		base[i] = []string{fmt.Sprintf("r%05d", i), fmt.Sprintf("a%d", i%7), fmt.Sprintf("b%d", i%11)}
 	}
+	if o.Parents != nil {
+		o.N = len(o.Parents)
+	}
 	for i := 0; i < o.N; i++ {
 		var ps []int
-		if i > 0 && !(o.Roots > 0 && i <= o.Roots && rng.Intn(2) == 0) {
+		if o.Parents != nil {
+			ps = append(ps, o.Parents[i]...)
+		} else if i > 0 && !(o.Roots > 0 && i <= o.Roots && rng.Intn(2) == 0) {
 			k := 1
 			if rng.Intn(4) == 0 {
 				k = 2
